@@ -83,19 +83,21 @@ def run_main(mod, argv):
     return code, out.getvalue()
 
 
-def observe(path, sw, changed):
+def observe(path, sw, changed, sw2=""):
+    """sw2: the same invocation names the path under a second switch as well - what is there is recorded for both readings"""
     p = {"exists": os.path.exists(path), "len": 0, "tape": [], "fat": [], "dir": [], "grans": [], "raw": []}
     if not p["exists"]:
         return p, None
     b = open(path, "rb").read()
     p["len"] = len(b)
     if changed:
-        if sw == "cas":
-            p["tape"] = list(b)
-        elif sw == "dsk" and len(b) == ct.IMG:
+        kinds = {sw, sw2} - {""}
+        if "dsk" in kinds and len(b) == ct.IMG:
             snap = ct.snapshot_delta([0xFF] * ct.IMG, list(b))
             p["fat"], p["dir"], p["grans"] = snap["fat"], snap["dir"], snap["grans"]
-        elif sw == "bin":
+        if "cas" in kinds and not ("dsk" in kinds and len(b) == ct.IMG):
+            p["tape"] = list(b)
+        if "bin" in kinds:
             p["raw"] = list(b[:70000])
     return p, b
 
@@ -123,6 +125,7 @@ def replay(args):
             open(t, "wb").write(b)
         for k, cmd in enumerate(h["cmds"]):
             cmd = dict(cmd)
+            cmd.setdefault("sw2", "")        # the same invocation names the target under a second switch too (--to_bin P --to_cas P)
             preb = open(t, "rb").read() if os.path.exists(t) else None
             listed = []
             _verif.reset()
@@ -151,7 +154,7 @@ def replay(args):
                 cat[pid] = program_file(pid)
                 src = os.path.join(W, "p%d.asm" % k)
                 open(src, "w").write((" NAM P%d\n" % pid if cmd["named"] else "") + " ORG $0E00\nS LDA #%d\n RTS \n" % (pid % 200))
-                argv = [src, "--to_" + cmd["sw"], t] + (["--append"] if cmd["app"] else [])
+                argv = [src, "--to_" + cmd["sw"], t] + (["--to_" + cmd["sw2"], t] if cmd["sw2"] else []) + (["--append"] if cmd["app"] else [])
                 if h.get("extra") and cmd["named"]:
                     # the same command also writes its other kinds of output to OTHER (new) paths: what lands at t must not depend on that
                     for x in ("bin", "cas", "dsk"):
@@ -177,7 +180,7 @@ def replay(args):
                     d = DiskFile()
                     d.add_files([ct.to_coco(f) for f in files])
                     open(sp, "wb").write(bytes(d.get_buffer()))
-                argv = [sp, "--to_" + cmd["sw"], t] + (["--append"] if cmd["app"] else [])
+                argv = [sp, "--to_" + cmd["sw"], t] + (["--to_" + cmd["sw2"], t] if cmd["sw2"] else []) + (["--append"] if cmd["app"] else [])
                 sel = cmd.get("select")
                 if sel is not None:
                     argv += ["--files"] + sel
@@ -192,7 +195,7 @@ def replay(args):
                      for e in _verif.drain() if e["ev"] in ("Open", "Save") and e.get("name") == t]
             postb = open(t, "rb").read() if os.path.exists(t) else None
             same = preb == postb
-            post, _ = observe(t, cmd["sw"], not same)
+            post, _ = observe(t, cmd["sw"], not same, cmd["sw2"])
             cmd.pop("select", None)
             events.append({"cmd": cmd, "same": same, "exit": code, "msg": len(out.strip()) > 0, "tb": "TRACEBACK" in out or "Traceback" in out,
                            "post": post, "hooks": hooks, "stdout": out[-200:], "listed": listed})
